@@ -1,0 +1,18 @@
+//go:build verif
+
+package textwire
+
+// The mode flag is kept in its own file so that a change of how the mode is
+// stored only has to touch these two functions.
+
+func verifResetMode() {
+	usesTemplates = false
+}
+
+func verifMode() string {
+	if usesTemplates {
+		return "templates"
+	}
+
+	return "string"
+}
